@@ -22,7 +22,7 @@ def instances(tier):
             out.append((T, f'VH_C03_var_VarUInteger{N}', [nb, 3], {'weight': nb + 1}))
     for (k, L, d) in [(0, 0, 0), (1, 9, 0), (2, 0, 0), (2, 0, 30), (3, 9, 5)]:
         out.append((T, 'VH_C03_MsgAddress', [k, L, d], {'weight': 20}))
-    for h in ('VH_C03_TickTock', 'VH_C03_ShardIdent', 'VH_C03_combinators', 'VH_C03_Grams', 'VH_C03_SignedCoins'):
+    for h in ('VH_C03_TickTock', 'VH_C03_ShardIdent', 'VH_C03_combinators', 'VH_C03_Grams', 'VH_C03_SignedCoins', 'VH_C03_plain_kinds'):
         out.append((T, h, [], {'weight': 60}))
     for (k, i, b, vb) in ([(0, 0, 0, 1), (0, 1, 1, 8), (1, 0, 0, 0), (1, 2, 1, 0), (2, 1, 0, 0)] if tier == 'quick' else
                           [(k, i, b, vb) for k in (0, 1, 2) for i in (0, 1, 2) for b in (0, 1) for vb in ((0, 8) if k == 0 else (0,))]):
